@@ -40,8 +40,12 @@ func NewEval(opts CompilerOptions, globals Object, args ...Object) *Eval {
 
 // Run compiles, runs given script and returns last value on stack.
 func (r *Eval) Run(ctx context.Context, script []byte) (Object, *Bytecode, error) {
+	savedModules := r.moduleStore.clone()
 	bytecode, err := compileScript(script, &r.Opts, &r.moduleStore)
 	if err != nil {
+		// modules registered by the failed compilation point to constants
+		// that are discarded with it
+		r.moduleStore = savedModules
 		return nil, nil, err
 	}
 
